@@ -1694,7 +1694,7 @@ class PostMethod(Method):
             return Response(status=507, reason="Insufficient Storage")
         except ResourceLocked:
             return Response(status=423, reason="Resource Locked")
-        href = environ["SCRIPT_NAME"] + urllib.parse.urljoin(
+        href = environ["SCRIPT_NAME"].rstrip("/") + urllib.parse.urljoin(
             ensure_trailing_slash(path), urllib.parse.quote(name)
         )
         return Response(headers={"Location": href})
